@@ -3,7 +3,7 @@ from props import sched_common as sc, sched_oracles as so
 
 PID = 'C11'
 META = {
-    'text': 'Theorems over the farm model (dispatch, _put, rerunid, Hand._reg/_process/connectionLost, notify_all) for every engine, state and history: a task is written only by an active dispatch to a connection on the idle list; the idle list holds exactly connections that registered with the current revision and have not dropped (trace theorem); a tasked worker gets one task and leaves the list; nothing but abort answers while inactive; unplaced tasks stay queued (permutation); message fields (job, target, factory, run 0 for regressions, carried run id or db.next()=stored+1 exactly when none). Tied to pl/farm.py by step-by-step correspondence with fake transports; the oracle is also evaluated on the implementation, including histories in which the database refuses a run id during a dispatch (Model/SchedFault.v, tied by correspondence; the invariant theorems speak about fault-free histories). Hand._reg, the status branch of Hand._process, something_to_do and the _cluster_sort comparator are in addition regenerated from the python source on every run by a fail-closed translator (Gen/FarmGen.v) and PROVED to be what the model does (C11_reg_is_source, C11_poll_is_source, C11_dispatch_guard_is_source -- the waiting_on_crew conjunct is dead code --, C11_cluster_sort_is_source); _workers_sort is regenerated statement by statement and proved equal to the model for every pool of at most 6 workers on 3 hosts (C11_workers_sort_is_source_partial; the general loop invariant is missing).',
+    'text': 'Theorems over the farm model (dispatch, _put, rerunid, Hand._reg/_process/connectionLost, notify_all) for every engine, state and history: a task is written only by an active dispatch to a connection on the idle list; the idle list holds exactly connections that registered with the current revision and have not dropped (trace theorem); a tasked worker gets one task and leaves the list; nothing but abort answers while inactive; unplaced tasks stay queued (permutation); message fields (job, target, factory, run 0 for regressions, carried run id or db.next()=stored+1 exactly when none). Tied to pl/farm.py by step-by-step correspondence with fake transports; the oracle is also evaluated on the implementation, including histories in which the database refuses a run id during a dispatch (Model/SchedFault.v, tied by correspondence; the invariant theorems speak about fault-free histories). Hand._reg, the status branch of Hand._process, something_to_do and the _cluster_sort comparator are in addition regenerated from the python source on every run by a fail-closed translator (Gen/FarmGen.v) and PROVED to be what the model does (C11_reg_is_source, C11_poll_is_source, C11_dispatch_guard_is_source -- the waiting_on_crew conjunct is dead code --, C11_cluster_sort_is_source); _workers_sort is regenerated statement by statement and proved equal to workers_sort of the model for EVERY pool with one registration per connection, including that the python neither raises IndexError nor loops (C11_workers_sort_is_source, Proofs/FarmSortEq.v: loop invariant wg = [(k, of_host w k) | k <- keys] over the fixed sorted keys, and the scan for `longest` over all keys = pick_host over the hosts that still have a worker; the NoDup hypothesis is necessary, witness workers_sort_gen_eq_needs_nodup).',
     'note': 'Trusted: Coq kernel; Sched.v model + drive_sched.py (fake transports decoded with message.loads, fsm stub, db.next stub). Reading taken: "told to leave" constrains what a worker can be told while inactive; the code does not proactively notify during gitting/archiving. One registration per connection is an input restriction (NoDup hypothesis). Not covered: AWS agency, TLS transport.',
     'technique': 'Coq proof (step + trace theorems) over hand-written executable model + source-generated definitions (eligibility tests, queue order) proved equal to the model functions + model/implementation correspondence + implementation-side oracle',
 }
